@@ -112,3 +112,15 @@ also("C16", "No function literal that is returned or stored writes a variable it
 also("C17", "No comparison with '[' or '?' is reachable, within one iteration of matchChunk, from the branch that consumed a backslash (R-C17-11).")
 also("C19", "The key-id preimage may be a struct literal: its JSON view has exactly the four members, none omitted when empty, keyval sets only public (R-C19-1); no returned closure writes captured state (shared R-C16-6).")
 also("C20", "A key-loading helper of the sign command fails only with the loader's own error (R-C20-4): sign --verify accepts whatever key LoadKeyDefaults accepts.")
+
+# round 9 of the seeded changes ("shows only when something fails at a particular point")
+also("C01", "The command-line verifier hands every --layout-keys file to the library under its own key id and fails on one it cannot load (shared R-C20-6). A1 also reports a result used before its error was examined and a deferred function that overwrites the error result.")
+also("C02", "In LoadLinksForLayout the error of LoadMetadata never reaches a failing continuation (R-C02-7): unreadable, foreign or garbage neighbours do not stop honest links from counting.")
+also("C10", "A loop-carried flag in a map range must be monotone; one that is overwritten per element holds the outcome of the element visited last (A3.1).")
+also("C11", "SetPayload stores into the envelope only after its last point of failure (R-C11-7).")
+also("C12", "A1 reports a deferred function literal that overwrites the error result without an err == nil guard (a write error replaced by the nil of Close) and a result used before its error was examined.")
+also("C13", "A1.u: the merged result of the recursive walk is used only where its error was examined.")
+also("C14", "RunCommand has no failing return after a successful Start (R-C14-9).")
+also("C15", "R-C15-8: below the entry set no reference-typed result of a fallible call is used where the call's error has not been examined (a nil Metadata from a failed sub-verification is not dereferenced).")
+also("C17", "The failure flag of matchChunk is sticky: every value flowing back into it is the flag itself or true (R-C17-12).")
+also("C20", "A1 covers deferred overwrites of the error result in the command helpers; the dumped file may be written through a helper that dumps to a temporary name and renames it to the constructed name (R-C20-3).")
